@@ -89,7 +89,7 @@ func (c *client) run(s *coop.Sched, dec *lazyproto.Decoder) {
 			if len(c.live) == 0 {
 				continue
 			}
-			h = c.live[o.sel%len(c.live)]
+			h = c.live[len(c.live)-1-o.sel%len(c.live)]
 		}
 		s.Yield("api")
 		switch o.kind {
@@ -160,35 +160,54 @@ func (c *client) run(s *coop.Sched, dec *lazyproto.Decoder) {
 	c.live = nil
 }
 
-func genScript(t *rapid.T, n int) []op {
+func genOp(t *rapid.T, k int) op {
 	tags := []int{1, 2, 3, 4, 5, 6, 7, 200, -3, 9}
-	out := make([]op, 0, n)
-	for i := 0; i < n; i++ {
-		k := []int{opDecode, opDecode, opAccess, opAccess, opAccess, opNested, opNested, opRange, opClose, opClose}[rapid.IntRange(0, 9).Draw(t, "op")]
-		o := op{kind: k}
-		switch k {
-		case opDecode:
-			o.input = rapid.IntRange(0, 7).Draw(t, "in")
-		case opAccess:
-			o.sel = rapid.IntRange(0, 7).Draw(t, "sel")
-			o.tag = tags[rapid.IntRange(0, len(tags)-1).Draw(t, "tag")]
-			o.acc = rapid.IntRange(0, len(lazysim.Accessors)-1).Draw(t, "acc")
-			if c := lazysim.Compatible(o.tag); c != nil && rapid.IntRange(0, 3).Draw(t, "fit") != 0 {
-				o.acc = c[rapid.IntRange(0, len(c)-1).Draw(t, "fitacc")]
-			}
-			o.viaFD = rapid.IntRange(0, 3).Draw(t, "viafd") == 0
-		case opNested:
-			o.sel = rapid.IntRange(0, 7).Draw(t, "sel")
-			o.tag = 3
-			if rapid.IntRange(0, 7).Draw(t, "oddtag") == 0 {
-				o.tag = tags[rapid.IntRange(0, len(tags)-1).Draw(t, "tag")]
-			}
-			o.multi = rapid.Bool().Draw(t, "multi")
-			o.which = rapid.IntRange(0, 3).Draw(t, "which")
-		default:
-			o.sel = rapid.IntRange(0, 7).Draw(t, "sel")
+	o := op{kind: k}
+	switch k {
+	case opDecode:
+		o.input = rapid.IntRange(0, 7).Draw(t, "in")
+	case opAccess:
+		o.sel = rapid.IntRange(0, 3).Draw(t, "sel")
+		o.tag = tags[rapid.IntRange(0, len(tags)-1).Draw(t, "tag")]
+		o.acc = rapid.IntRange(0, len(lazysim.Accessors)-1).Draw(t, "acc")
+		if c := lazysim.Compatible(o.tag); c != nil && rapid.IntRange(0, 3).Draw(t, "fit") != 0 {
+			o.acc = c[rapid.IntRange(0, len(c)-1).Draw(t, "fitacc")]
 		}
-		out = append(out, o)
+		o.viaFD = rapid.IntRange(0, 3).Draw(t, "viafd") == 0
+	case opNested:
+		o.sel = rapid.IntRange(0, 2).Draw(t, "sel")
+		o.tag = 3
+		if rapid.IntRange(0, 7).Draw(t, "oddtag") == 0 {
+			o.tag = tags[rapid.IntRange(0, len(tags)-1).Draw(t, "tag")]
+		}
+		o.multi = rapid.Bool().Draw(t, "multi")
+		o.which = rapid.IntRange(0, 3).Draw(t, "which")
+	default:
+		o.sel = rapid.IntRange(0, 3).Draw(t, "sel")
+	}
+	return o
+}
+
+// genScript draws a client script as a sequence of iterations of the usage the property describes
+// (decode, look at nested results, read values, close), with drawn deviations: results kept live across
+// iterations, reads before nesting, extra closes.
+func genScript(t *rapid.T, iters int) []op {
+	var out []op
+	for it := 0; it < iters; it++ {
+		out = append(out, genOp(t, opDecode))
+		for k, n := 0, rapid.IntRange(0, 3).Draw(t, "nnested"); k < n; k++ {
+			out = append(out, genOp(t, opNested))
+		}
+		for k, n := 0, rapid.IntRange(0, 4).Draw(t, "nreads"); k < n; k++ {
+			if rapid.IntRange(0, 7).Draw(t, "rng") == 0 {
+				out = append(out, genOp(t, opRange))
+			} else {
+				out = append(out, genOp(t, opAccess))
+			}
+		}
+		if rapid.IntRange(0, 3).Draw(t, "keep") != 0 {
+			out = append(out, genOp(t, opClose))
+		}
 	}
 	return out
 }
@@ -207,18 +226,33 @@ func runC15(t *rapid.T, w *rep.Worker, maxClients int) {
 	model := simpool.New(cfg, chooser{t})
 	nc := rapid.IntRange(2, maxClients).Draw(t, "nclients")
 	clients := make([]*client, nc)
+	corrupted := 0
 	for i := range clients {
 		c := &client{id: i}
 		mark := uint64(i+1) * 0x0101010101010101
 		ni := rapid.IntRange(1, 3).Draw(t, "ninputs")
 		for j := 0; j < ni; j++ {
-			b, _ := wirex.Encode(lazysim.GenMsg(t, 0, 8, mark, "msg"))
+			b, spans := wirex.Encode(lazysim.GenMsg(t, 0, 8, mark, "msg"))
+			if rapid.IntRange(0, 5).Draw(t, "corrupt") == 0 {
+				// a malformed element inside a nested message: the top level still decodes
+				var inner []wirex.Span
+				for _, sp := range spans {
+					if sp.Depth >= 1 {
+						inner = append(inner, sp)
+					}
+				}
+				if len(inner) > 0 {
+					sp := inner[rapid.IntRange(0, len(inner)-1).Draw(t, "inner_which")]
+					b[sp.KeyStart] = []byte{b[sp.KeyStart]&^7 | 7, 0x80, 0}[rapid.IntRange(0, 2).Draw(t, "inner_kind")]
+					corrupted++
+				}
+			}
 			if len(b) == 0 {
 				b, _ = wirex.Encode([]wirex.Rec{{Tag: 1, WT: wirex.Varint, U: mark}})
 			}
 			c.inputs = append(c.inputs, b)
 		}
-		c.script = genScript(t, rapid.IntRange(2, 14).Draw(t, "nops"))
+		c.script = genScript(t, rapid.IntRange(1, 5).Draw(t, "iters"))
 		clients[i] = c
 	}
 	w.Begin(fmt.Sprintf("%s def=%s pool={%s drop=%d%% miss=%d%%} clients=%d race=%v", opts, lazysim.DefString(def), cfg.Policy, cfg.DropOnPutPct, cfg.ForcedMissPct, nc, coop.RaceBuild))
@@ -292,6 +326,7 @@ func runC15(t *rapid.T, w *rep.Worker, maxClients int) {
 	w.Probes["context_switches"] += int64(sched.Switches)
 	w.Probes["get_while_other_client_holds_object_of_same_pool"] += int64(sched.ContendedGet)
 	w.Probes["judged_observations"] += int64(judged)
+	w.Faults["nested_element_corrupted"] += int64(corrupted)
 	for k, v := range sched.YieldKinds {
 		w.Probes["yield:"+k] += int64(v)
 	}
